@@ -158,3 +158,12 @@ def eof_before_the_body_is_always_reprocessed():
     return rec("C03/skeleton/eof-before-the-body-is-reprocessed", not bad, len(PRE_BODY_PHASES),
                "processEOF of the six insertion modes that precede the body returns True on every path (the EOF is reprocessed "
                "until head and body have been implied)", witness=bad or None)
+
+
+def textarea_witness():
+    """known finding: <textarea> content is processed by the in-body rules instead of the text insertion mode, so the
+    active formatting elements are reconstructed inside it: '<p><b></p><textarea>x</textarea>' gives <textarea><b>x</b>"""
+    import html5lib
+    doc = html5lib.parse("<p><b></p><textarea>x</textarea>", namespaceHTMLElements=False)
+    ta = doc.find(".//textarea")
+    return ta is not None and len(ta) == 1 and ta[0].tag == "b"
